@@ -41,6 +41,16 @@ CHECKS = {
   "All 16 (4 for unary) operand assignments over {T,F,U,hard error} for &&, ||, !, is unknown, each outcome realised by every member of a 9-13 member family (so every ordered pair of realisations), observed through Query, Match, a filter, exists(filter) and filter+is unknown in both modes, against the Kleene tables; then commutativity, double negation, De Morgan, is-unknown two-valuedness and the tables themselves over all ordered pairs of a 75-condition pool x all documents, as predicate checks and inside filters.",
   "Conditions outside the families/pools are not covered; with a hard-error operand either the error or the value decided by the other operand is accepted.",
   "DESIGN.md §3 C11"),
+ "C12": ("model_checking", "ref-conformance",
+  "exhaustive pair/triple enumeration over a value corpus: order axioms checked on the recorded comparison table of the real implementation and against a reference order",
+  "All ordered pairs of a ~100-value corpus (every type; numbers at 0, +-1, 2^31, 2^53+-1, 2^63 and negative fractions in int64/float64/json.Number; byte-order witnesses; five datetime kinds; containers) x six operators x both orders x both modes x three deliveries: reference order, trichotomy, duality, unions, null rules, incomparability; all triples for transitivity; all pairs of sequences of <=2 values for the lax-existential / strict-unknown rule; starts with and like_regex against Go strings/regexp over full products of small corpora.",
+  "Values outside the corpus are not covered; datetime comparisons under non-UTC context zones are covered by C17.",
+  "DESIGN.md §3 C12"),
+ "C13": ("model_checking", "ref-conformance",
+  "exhaustive pair enumeration over a boundary corpus in three numeric representations against math/big exact arithmetic",
+  "All ordered pairs of ~110 operand representations (0, +-1, int32/int64 limits and neighbours, 2^53 neighbours, sqrt(2^63) neighbours, fractions, huge/tiny doubles; int64, float64, json.Number incl. exponent spellings) x five operators x both modes x three deliveries, both unary operators, operand-sequence rule, and the identities -(-x)=x, x+y=y+x, x*y=y*x.",
+  "Operands outside the corpus are not covered; where the exact integer result does not fit int64 either the IEEE double or a suppressible error is accepted.",
+  "DESIGN.md §3 C13"),
 }
 
 PENDING = {}
